@@ -18,7 +18,8 @@
     total order, and the orders of the library's key types (UintN, IntN, BitsN,
     AddressWithWorkchain) are shown to be instances. *)
 From Coq Require Import List NArith ZArith Arith Lia Bool Sorted Permutation.
-From Tongo Require Import Lib.Bits Lib.Res Spec.Dict Model.Hashmap Model.HashmapHist Proofs.HashmapHistP Proofs.HashmapCtxP
+From Tongo Require Import Lib.Bits Lib.Res Spec.Dict Spec.DictAug Model.Hashmap Model.HashmapHist Model.HashmapAug
+  Proofs.HashmapHistP Proofs.HashmapCtxP Proofs.HashmapAugP
   Proofs.DictP Proofs.HashmapPut Proofs.HashmapSort Proofs.HashmapKeys
   Proofs.HashmapP Proofs.HashmapP2 Proofs.HashmapHistory.
 Import ListNotations.
@@ -406,6 +407,55 @@ Theorem C05_decoder_context_reaches_leaves :
   end.
 Proof. exact decode_ctx. Qed.
 Print Assumptions C05_decoder_context_reaches_leaves.
+
+(** ** the size-only label parser, leaf counting, augmented dictionaries *)
+
+(** countLeafs / hashmapAugExtraCountLeafs (BlockExtra.InMsgDescrLength,
+    OutMsgDescrLength), which read only the LENGTH of every label through
+    loadLabelSize: for every valid dictionary and EVERY label form per edge
+    (short, long, same — valid or not as a form: only lengths matter) the count
+    is the number of entries of the mapping the dictionary decodes to. *)
+Theorem C05_count_leafs :
+  forall V venc n (t : option (apt V)) c,
+  (forall a, t = Some a -> wf_pt n (erase a)) ->
+  cells_of_e venc n t = Ok c ->
+  count_leafs_e n c =
+    Ok (N.of_nat (length (match t with Some a => tree_to_list [] (erase a) | None => [] end))).
+Proof. exact count_leafs_e_cells. Qed.
+Print Assumptions C05_count_leafs.
+
+(** HashmapAugE (decode only in the library): every valid augmented dictionary
+    with any label forms and any extras decodes to its mapping (Keys()/Values()),
+    and the leaf count of the same cells is the number of its entries. *)
+Theorem C05_decode_aug_any_label_form :
+  forall X V venc vdec xenc xdec,
+  vcodec venc vdec ->
+  (forall (x : X) b r, xdec (fst (xenc x) ++ b) (snd (xenc x) ++ r) = Some (x, b, r)) ->
+  forall n (t : option (aapt X V)) (x : X) c,
+  (forall a, t = Some a -> wf_pt n (erase_aug a) /\ forms_valid_aug a) ->
+  cells_of_aug_e venc xenc n t x = Ok c ->
+  decode_aug_e vdec xdec n c =
+    Ok (match t with Some a => tree_to_list [] (erase_aug a) | None => [] end) /\
+  count_leafs_e n c =
+    Ok (N.of_nat (length (match t with Some a => tree_to_list [] (erase_aug a) | None => [] end))).
+Proof. exact decode_aug_e_any_label_form. Qed.
+Print Assumptions C05_decode_aug_any_label_form.
+
+(** ** ConfigParams.CloneKeepingSubsetOfKeys *)
+
+(** The clone of a decoded dictionary is the restriction of its mapping to the
+    requested keys, again ascending; the source is not an output (in the model
+    the operation is a function to the clone only: what the source answers
+    afterwards is what it answered before — the content is the correspondence on
+    c05.cfg histories, where source and clone are used again, also with Put). *)
+Theorem C05_clone_subset :
+  forall V n keys (m : list (bits * V)),
+  sorted m -> keys_len n m ->
+  sorted (clone_subset keys m) /\ keys_len n (clone_subset keys m) /\
+  (forall k, lookup k (clone_subset keys m) =
+             if existsb (bits_eqb k) keys then lookup k m else None) /\
+  (forall x, In x (clone_subset keys m) <-> In x m /\ existsb (bits_eqb (fst x)) keys = true).
+Proof. exact clone_subset_spec. Qed.
 
 (** ** the inputs that refuted the property before the repairs, now *)
 Theorem C05_address_key_fixed :
